@@ -388,4 +388,41 @@ FUNCTIONS = {
                 ]},
         },
     },
+    # the network's own incidence matrix (sparse form): entry (species, reaction) = produced minus consumed, no other keys
+    HG + "::CRNHyperGraph.incidence_matrix": {
+        "params": {"sparse": "const:True"},
+        "vars": {"mapping": "dict[tuple[str,str],int]", "edge_order": "list[str]", "species_order": "list[str]", "seen": "set[str]"},
+        "returns": "tuple[list[str],list[str],dict[tuple[str,str],int]]",
+        "requires": ["wf(self)"],
+        "modifies": [],
+        "ensures": [
+            "forall('str', lambda s: (s in result[0]) == (s in self.species))",
+            "forall('str', lambda e: (e in result[1]) == (e in self.edges))",
+            "forall((range(len(result[1])), range(len(result[1]))), lambda i, j: implies(i < j, result[1][i] < result[1][j]))",
+            "forall(('str', 'str'), lambda s, e: implies(e in self.edges, result[2].get((s, e), 0) == P(self, e, s) - R(self, e, s)))",
+            "forall(result[2], lambda s, e: e in self.edges and (s in self.edges[e].reactants.data or s in self.edges[e].products.data))",
+        ],
+        "loops": {
+            1: {"ghost_init": ["seen = set()"], "ghost_step": ["seen.add(eid)"],
+                "step_hints": [
+                    "forall('str', lambda s: mapping.get((s, eid), 0) == P(self, eid, s) - R(self, eid, s))",
+                    "forall(('str', 'str'), lambda s, e2: implies(e2 != eid, ((s, e2) in mapping) == at_iter((s, e2) in mapping) and mapping.get((s, e2), 0) == at_iter(mapping.get((s, e2), 0))))",
+                    "forall('str', lambda s: implies((s, eid) in mapping, s in self.edges[eid].reactants.data or s in self.edges[eid].products.data))",
+                    "at_iter(eid not in seen)"],
+                "inv": [
+                    "forall(seen, lambda e: exists(range(done), lambda j: edge_order[j] == e))",
+                    "forall(range(done), lambda j: edge_order[j] in seen)",
+                    "forall(seen, lambda e: e in self.edges)",
+                    "forall(seen, lambda e: forall('str', lambda s: mapping.get((s, e), 0) == P(self, e, s) - R(self, e, s)))",
+                    "forall(mapping, lambda s, e: e in seen and (s in self.edges[e].reactants.data or s in self.edges[e].products.data))"]},
+            2: {"inv": [
+                "forall('str', lambda s: mapping.get((s, eid), 0) == (0 - R(self, eid, s) if s in done else 0))",
+                "forall('str', lambda s: implies((s, eid) in mapping, s in done))",
+                "forall(('str', 'str'), lambda s, e2: implies(e2 != eid, ((s, e2) in mapping) == at_iter((s, e2) in mapping) and mapping.get((s, e2), 0) == at_iter(mapping.get((s, e2), 0))))"]},
+            3: {"inv": [
+                "forall('str', lambda s: mapping.get((s, eid), 0) == (P(self, eid, s) if s in done else 0) - R(self, eid, s))",
+                "forall('str', lambda s: implies((s, eid) in mapping, s in done or s in self.edges[eid].reactants.data))",
+                "forall(('str', 'str'), lambda s, e2: implies(e2 != eid, ((s, e2) in mapping) == at_iter((s, e2) in mapping) and mapping.get((s, e2), 0) == at_iter(mapping.get((s, e2), 0))))"]},
+        },
+    },
 }
